@@ -265,3 +265,392 @@ func runR50(c *Ctx) {
 		})
 	}
 }
+
+// ---- R86: what ReadCSV does with a row, in every world of (column count differs, line is empty, IgnoreEmptyLines) ----
+
+func init() {
+	register(&Rule{ID: "R86", Name: "ROW-DISPOSITION", Floor: 10,
+		Text: "the body of ReadCSV's row loop is explored from the call of Fields() in the eight worlds of (the row's field count differs from the header's, isEmptyLine(row), IgnoreEmptyLines): branches on these three predicates are resolved by the world, all other branches are followed both ways. An empty line with IgnoreEmptyLines set is skipped (no cell appended, no error) whatever its field count; otherwise a differing field count ends in an error return and nothing is appended; otherwise the row's cells are appended and no error is returned from the loop body. isEmptyLine itself is evaluated (E5) in the four worlds of (one field, first field empty) and is true only when both hold",
+		Run:  runR86})
+}
+
+func runR86(c *Ctx) {
+	p := c.P
+	fn := p.Func("internal/io", "ReadCSV")
+	if fn == nil {
+		c.undecided("internal/io.ReadCSV", "-", "not found")
+		return
+	}
+	fnm := fname(fn)
+	var start *ssa.BasicBlock
+	var fieldsCall *ssa.Call
+	eachInstr(fn, func(in ssa.Instruction) {
+		if call, ok := in.(*ssa.Call); ok {
+			if o := calleeObj(call); o != nil && o.Name() == "Fields" {
+				start, fieldsCall = call.Block(), call
+			}
+		}
+	})
+	if start == nil {
+		c.undecided(fnm+"|row loop", p.pos(fn.Pos()), "the call of Fields() was not found")
+		return
+	}
+	isSink := func(b *ssa.BasicBlock) bool {
+		for _, in := range b.Instrs {
+			switch t := in.(type) {
+			case *ssa.Store:
+				if ia, ok := t.Addr.(*ssa.IndexAddr); ok && isSliceOfSlices(ia.X.Type()) {
+					if call, ok := t.Val.(*ssa.Call); ok && builtinName(call) == "append" {
+						return true
+					}
+				}
+			case *ssa.Call:
+				if callee := t.Call.StaticCallee(); callee != nil && callee.Pkg == fn.Pkg {
+					for _, a := range t.Call.Args {
+						if isSliceOfSlices(a.Type()) && callee.Name() != "resizeColBytes" && callee.Name() != "resizeColPointers" {
+							appends := false
+							eachInstr(callee, func(i2 ssa.Instruction) {
+								if st, ok := i2.(*ssa.Store); ok {
+									if ia, ok := st.Addr.(*ssa.IndexAddr); ok && isSliceOfSlices(ia.X.Type()) {
+										appends = true
+									}
+								}
+							})
+							if appends {
+								return true
+							}
+						}
+					}
+				}
+			}
+		}
+		return false
+	}
+	derivesFromFields := func(v ssa.Value) bool {
+		for i := 0; i < 6; i++ {
+			switch t := v.(type) {
+			case *ssa.Call:
+				return t == fieldsCall
+			case *ssa.UnOp:
+				v = t.X
+			case *ssa.Alloc:
+				s := singleDef(t)
+				if s == nil {
+					return false
+				}
+				v = s
+			default:
+				return false
+			}
+		}
+		return false
+	}
+	// the row loop: the innermost loop containing the Fields() call
+	var rowHeader *ssa.BasicBlock
+	for _, li := range loopsOf(fn) {
+		if inLoop(li, start) && (rowHeader == nil || rowHeader.Dominates(li.header)) {
+			rowHeader = li.header
+		}
+	}
+	if rowHeader == nil {
+		c.undecided(fnm+"|row loop", p.pos(fn.Pos()), "Fields() is not called inside a loop")
+		return
+	}
+	// entering the loop over the row's cells counts as appending them (a row without cells appends nothing)
+	cellLoop := map[*ssa.BasicBlock]bool{}
+	for _, b := range fn.Blocks {
+		if !isSink(b) {
+			continue
+		}
+		for _, li := range loopsOf(fn) {
+			if li.header != rowHeader && rowHeader.Dominates(li.header) && inLoop(li, b) {
+				cellLoop[li.header] = true
+			}
+		}
+	}
+	isSink0 := isSink
+	isSink = func(b *ssa.BasicBlock) bool { return cellLoop[b] || isSink0(b) }
+	for w := 0; w < 8; w++ {
+		mismatch, empty, ignore := w&1 != 0, w&2 != 0, w&4 != 0
+		key := fmt.Sprintf("%s|row world countDiffers=%v emptyLine=%v IgnoreEmptyLines=%v", fnm, mismatch, empty, ignore)
+		decide := func(cond ssa.Value) (bool, bool) {
+			cv, val := unNot(cond, true)
+			if call, ok := cv.(*ssa.Call); ok {
+				if o := calleeObj(call); o != nil && o.Name() == "isEmptyLine" {
+					return empty == val, true
+				}
+			}
+			if fieldNameOfLoad(cv) == "IgnoreEmptyLines" {
+				return ignore == val, true
+			}
+			if b, ok := cv.(*ssa.BinOp); ok && (b.Op == token.NEQ || b.Op == token.EQL) {
+				lx, okx := b.X.(*ssa.Call)
+				ly, oky := b.Y.(*ssa.Call)
+				if okx && oky && builtinName(lx) == "len" && builtinName(ly) == "len" {
+					if derivesFromFields(lx.Call.Args[0]) != derivesFromFields(ly.Call.Args[0]) {
+						differs := mismatch
+						if b.Op == token.EQL {
+							differs = !differs
+						}
+						return differs == val, true
+					}
+				}
+			}
+			return false, false
+		}
+		outcomes := map[string]bool{}
+		seen := map[*ssa.BasicBlock]bool{}
+		var dfs func(b *ssa.BasicBlock, appended bool)
+		dfs = func(b *ssa.BasicBlock, appended bool) {
+			if isSink(b) {
+				appended = true
+				outcomes["append"] = true
+			}
+			if seen[b] && !appended {
+				return
+			}
+			if seen[b] && appended {
+				return
+			}
+			seen[b] = true
+			if ret, ok := b.Instrs[len(b.Instrs)-1].(*ssa.Return); ok {
+				if mayReportSuccess(ret) {
+					outcomes["return-ok"] = true
+				} else {
+					outcomes["error"] = true
+				}
+				return
+			}
+			follow := []bool{true, true}
+			if iff, ok := b.Instrs[len(b.Instrs)-1].(*ssa.If); ok {
+				if v, known := decide(iff.Cond); known {
+					follow[0], follow[1] = v, !v
+				}
+			}
+			for i, s := range b.Succs {
+				if i < 2 && !follow[i] {
+					continue
+				}
+				// leaving the body: back to the loop condition (r.Next())
+				if s == rowHeader || s == start {
+					if !appended {
+						outcomes["skip"] = true
+					}
+					continue
+				}
+				dfs(s, appended)
+			}
+		}
+		dfs(start, false)
+		var got []string
+		for k := range outcomes {
+			got = append(got, k)
+		}
+		sortStrings(got)
+		want := "append"
+		switch {
+		case empty && ignore:
+			want = "skip"
+		case mismatch:
+			want = "error"
+		}
+		okW := false
+		switch want {
+		case "skip":
+			okW = outcomes["skip"] && !outcomes["append"] && !outcomes["error"]
+		case "error":
+			okW = outcomes["error"] && !outcomes["append"] && !outcomes["skip"]
+		case "append":
+			okW = outcomes["append"] && !outcomes["error"] && !outcomes["skip"]
+		}
+		if okW {
+			c.ok(key, p.pos(start.Instrs[0].Pos()), "the row is handled by: "+want)
+		} else {
+			c.bad(key, p.pos(start.Instrs[0].Pos()), fmt.Sprintf("the row must end in %q but the reachable outcomes are %v (skip = next row without appending, error = error return, append = cells appended)", want, got))
+		}
+	}
+	// isEmptyLine
+	if ef := p.Func("internal/io", "isEmptyLine"); ef == nil || len(ef.Params) != 1 {
+		c.undecided("internal/io.isEmptyLine", "-", "not found")
+	} else {
+		for w := 0; w < 4; w++ {
+			one, firstEmpty := w&1 != 0, w&2 != 0
+			key := fmt.Sprintf("internal/io.isEmptyLine|world oneField=%v firstFieldEmpty=%v", one, firstEmpty)
+			pe := &pathExec{fn: ef}
+			atom := func(x ssa.Value) (bool, bool) {
+				b, ok := x.(*ssa.BinOp)
+				if !ok || b.Op != token.EQL && b.Op != token.NEQ {
+					return false, false
+				}
+				call, ok := b.X.(*ssa.Call)
+				if !ok || builtinName(call) != "len" {
+					return false, false
+				}
+				k, isK := constInt(b.Y)
+				if !isK {
+					return false, false
+				}
+				if call.Call.Args[0] == ssa.Value(ef.Params[0]) && k == 1 {
+					return one == (b.Op == token.EQL), true
+				}
+				if _, isElem := call.Call.Args[0].(*ssa.UnOp); isElem && k == 0 {
+					if !one {
+						return false, false // fields[0] of a row that does not have exactly one field: irrelevant, must not decide
+					}
+					return firstEmpty == (b.Op == token.EQL), true
+				}
+				return false, false
+			}
+			pe.oracle = func(pe *pathExec, cond ssa.Value) (bool, bool) { return pe.evalBool(cond, atom) }
+			end, why := pe.run()
+			ret, ok := end.(*ssa.Return)
+			if !ok {
+				if !one {
+					// evaluating the first field's length for a row without exactly one field: only acceptable if the result is false anyway
+					c.bad(key, p.pos(ef.Pos()), "the emptiness of the first field is consulted although the row does not have exactly one field: a row such as `,5` counts as an empty line")
+				} else {
+					c.undecided(key, p.pos(ef.Pos()), "cannot evaluate: "+why)
+				}
+				continue
+			}
+			v, known := pe.evalBool(ret.Results[0], atom)
+			want := one && firstEmpty
+			switch {
+			case !known && !one:
+				c.bad(key, p.instrPos(ret), "the result depends on the first field although the row does not have exactly one field")
+			case !known:
+				c.undecided(key, p.instrPos(ret), "result not decided by the world")
+			case v == want:
+				c.ok(key, p.instrPos(ret), fmt.Sprintf("returns %v", v))
+			default:
+				c.bad(key, p.instrPos(ret), fmt.Sprintf("returns %v; an empty line is a row of exactly one empty field", v))
+			}
+		}
+	}
+}
+
+// reachesBlock: target is reachable from b without passing through `not`.
+func reachesBlock(b, target, not *ssa.BasicBlock) bool {
+	for _, r := range reachableAvoiding(b, func(x *ssa.BasicBlock) bool { return x == not }) {
+		if r == target {
+			return true
+		}
+	}
+	return false
+}
+
+// headerOfRowLoop: s is the block holding the loop condition that leads back to start (the r.Next() test).
+func headerOfRowLoop(s, start *ssa.BasicBlock) bool {
+	if !s.Dominates(start) {
+		return false
+	}
+	for _, succ := range s.Succs {
+		if succ == start {
+			return true
+		}
+	}
+	return false
+}
+
+// ---- R87: a grown buffer starts with the content of the one it replaces ----
+
+func init() {
+	register(&Rule{ID: "R87", Name: "RESIZE-PRESERVES", Floor: 2,
+		Text: "in internal/io, wherever an element of a per-column buffer table ([][]byte, [][]bytePointer) handed in as a parameter is replaced by a slice allocated in the function (the RowCountHint pre-sizing), the replacement is built by appending the old element's content to the new allocation: the cells read so far are carried over",
+		Run:  runR87})
+}
+
+func runR87(c *Ctx) {
+	p := c.P
+	for _, fn := range p.FuncsIn("internal/io") {
+		fnm := fname(fn)
+		eachInstr(fn, func(in ssa.Instruction) {
+			st, ok := in.(*ssa.Store)
+			if !ok {
+				return
+			}
+			ia, ok := st.Addr.(*ssa.IndexAddr)
+			if !ok || !isSliceOfSlices(ia.X.Type()) {
+				return
+			}
+			if _, isParam := rootValue(ia.X).(*ssa.Parameter); !isParam {
+				return
+			}
+			// is the stored value rooted in a make of this function?
+			rooted, carries := false, false
+			seen := map[ssa.Value]bool{}
+			var walk func(v ssa.Value)
+			walk = func(v ssa.Value) {
+				if seen[v] {
+					return
+				}
+				seen[v] = true
+				switch t := v.(type) {
+				case *ssa.MakeSlice:
+					rooted = true
+				case *ssa.Phi:
+					for _, e := range t.Edges {
+						walk(e)
+					}
+				case *ssa.Call:
+					if builtinName(t) == "append" && len(t.Call.Args) == 2 {
+						// append(new, old...) where old is the element being replaced (range value / same element)
+						src := t.Call.Args[1]
+						if ld, ok := src.(*ssa.UnOp); ok && ld.Op == token.MUL {
+							if ia2, ok := ld.X.(*ssa.IndexAddr); ok && rootValue(ia2.X) == rootValue(ia.X) {
+								carries = true
+							}
+						}
+						walk(t.Call.Args[0])
+					}
+				}
+			}
+			walk(st.Val)
+			if !rooted {
+				return
+			}
+			key := fnm + "|replacement buffer"
+			if carries {
+				c.ok(key, p.instrPos(st), "the new buffer is the new allocation with the old element appended")
+			} else {
+				c.bad(key, p.instrPos(st), "a column buffer is replaced by a fresh allocation that does not carry over the old content: the cells read before the resize are lost")
+			}
+		})
+	}
+}
+
+// ---- R88: the quote counter of the CSV scanner is consulted through its parity only ----
+
+func init() {
+	register(&Rule{ID: "R88", Name: "QUOTE-PARITY", Floor: 2,
+		Text: "in the CSV scanner (internal/fastcsv) a run of consecutive quotes inside a quoted field matters only through its parity (each pair is one literal quote, an odd remainder closes the field): every remainder operation of the package divides by the constant 2 and its result is compared with 0 or 1 only",
+		Run:  runR88})
+}
+
+func runR88(c *Ctx) {
+	p := c.P
+	for _, fn := range p.FuncsIn("internal/fastcsv") {
+		fnm := fname(fn)
+		eachInstr(fn, func(in ssa.Instruction) {
+			b, ok := in.(*ssa.BinOp)
+			if !ok || b.Op != token.REM {
+				return
+			}
+			key := fnm + "|remainder"
+			k, isK := constInt(b.Y)
+			if !isK || k != 2 {
+				c.bad(key, p.instrPos(b), fmt.Sprintf("%s: a quote run is tested modulo something other than 2; after an escaped quote pair the delimiter or line end that follows is then taken for the end of the field (or not taken for it)", describe(b)))
+				return
+			}
+			for _, r := range *b.Referrers() {
+				if cmp, ok := r.(*ssa.BinOp); ok {
+					if kk, isKK := constInt(cmp.Y); !isKK || kk != 0 && kk != 1 || cmp.Op != token.EQL && cmp.Op != token.NEQ {
+						c.bad(key, p.instrPos(cmp), "the parity is compared with something other than 0 or 1")
+						return
+					}
+				}
+			}
+			c.ok(key, p.instrPos(b), "parity test")
+		})
+	}
+}
